@@ -112,6 +112,14 @@ func racWrap64u(a *big.Int) *big.Int {
 }
 // racUF evaluates an "uninterpreted" specification function with math/big itself.
 func racUF(name string, a ...*big.Int) *big.Int {
+	r := racUF0(name, a...)
+	if len(r.Bits()) == 0 {
+		// math/big itself can hand back a zero with the sign flag set (GCD's Bezout coefficients)
+		return new(big.Int)
+	}
+	return r
+}
+func racUF0(name string, a ...*big.Int) *big.Int {
 	z := new(big.Int)
 	u := func(k int) uint {
 		if !a[k].IsUint64() || a[k].Uint64() > 1<<20 {
